@@ -392,6 +392,66 @@ theorem timer_not_early (t k x : Nat) (h : Ev.fire t k x ∈ (reach cfg t0 tasks
       t0 + c.delay + k * ivl c ≤ x :=
   Pox.Recoco.timer_not_early cfg t0 tasks timers ss rs ps ds n t k x h
 
+/-! ## `Scheduler.schedule` called by a task for another task (the harness's `wake` yields) -/
+
+/-- **schedule_queued_noop.**  `schedule()` of a task that is in the ready deque changes nothing at all - not the deque, not the
+pinger, not the task: the run goes on as if the call had not been made.  (This is what lets the harness compare a run whose
+wakes all hit queued tasks with the model's run of the same programs with `yield 0` in their place.) -/
+theorem schedule_queued_noop (s : St) (t : Nat) (first : Bool) (h : t ∈ s.ready) : schedule s t first = s := by
+  simp [schedule, h]
+
+/-- **schedule_at_most_once.**  In every reachable state, for every task and both values of `first`: after `schedule()` the task
+is in the ready deque, the deque holds no task twice (so it holds this one exactly once), every other task is in it iff it was
+before, and `fast_schedule`'s sanity check did not fire. -/
+theorem schedule_at_most_once (s : St) (hs : s = reach cfg t0 tasks timers ss rs ps ds n) (t : Nat) (first : Bool) :
+    (schedule s t first).ready.Nodup ∧ t ∈ (schedule s t first).ready ∧
+    (∀ u, u ≠ t → (u ∈ (schedule s t first).ready ↔ u ∈ s.ready)) ∧ (schedule s t first).crashed = s.crashed := by
+  have hnd : s.ready.Nodup := by
+    have := (single_place cfg t0 tasks timers ss rs ps ds n s hs).1
+    simp only [places] at this
+    exact (List.nodup_append.mp (List.nodup_append.mp this).2.1).1
+  by_cases h : t ∈ s.ready
+  · rw [schedule_queued_noop s t first h]
+    exact ⟨hnd, h, fun _ _ => Iff.rfl, rfl⟩
+  · cases first
+    · refine ⟨?_, ?_, ?_, ?_⟩
+      · simp only [schedule, fastSchedule, if_neg h]
+        exact List.nodup_append.mpr ⟨hnd, by simp, by
+          intro a ha b hb; rw [List.mem_singleton] at hb; subst hb; exact fun e => h (e ▸ ha)⟩
+      · simp [schedule, fastSchedule, h]
+      · intro u hu; simp [schedule, fastSchedule, h, hu]
+      · simp [schedule, fastSchedule, h]
+    · refine ⟨?_, ?_, ?_, ?_⟩
+      · simp only [schedule, fastSchedule, if_neg h]
+        exact List.nodup_cons.mpr ⟨h, hnd⟩
+      · simp [schedule, fastSchedule, h]
+      · intro u hu; simp [schedule, fastSchedule, h, hu]
+      · simp [schedule, fastSchedule, h]
+
+/-- **schedule_wakes_blocked.**  In every reachable state, `schedule()` of a task that is in none of the queues (it is blocked:
+`yield False`, `Sleep(None)`) puts it into the ready deque and nowhere else: the places still hold every task at most once, and
+they hold exactly the tasks they held before plus the woken one. -/
+theorem schedule_wakes_blocked (s : St) (hs : s = reach cfg t0 tasks timers ss rs ps ds n) (t : Nat) (first : Bool)
+    (hb : t ∉ places s) :
+    (places (schedule s t first)).Nodup ∧ t ∈ (schedule s t first).ready ∧
+    (∀ u, u ∈ places (schedule s t first) ↔ (u = t ∨ u ∈ places s)) := by
+  have hnd := (single_place cfg t0 tasks timers ss rs ps ds n s hs).1
+  have hr : t ∉ s.ready := fun h => hb (by simp [places, h])
+  have hp : (places (schedule s t first)).Perm (t :: places s) := by
+    have key : ∀ (a r c : List Nat), (a ++ ((r ++ [t]) ++ c)).Perm (t :: (a ++ (r ++ c))) := by
+      intro a r c
+      have h1 : ((r ++ [t]) ++ c).Perm (t :: (r ++ c)) := by
+        rw [List.append_assoc]; exact List.perm_middle
+      exact (List.Perm.append_left a h1).trans List.perm_middle
+    cases first
+    · simp only [schedule, fastSchedule, if_neg hr, places, incTids, hubTids, Bool.false_eq_true, if_false]
+      exact key _ _ _
+    · simp only [schedule, fastSchedule, if_neg hr, places, incTids, hubTids, if_true]
+      exact List.perm_middle
+  refine ⟨hp.nodup_iff.mpr (List.nodup_cons.mpr ⟨hb, hnd⟩), ?_, ?_⟩
+  · cases first <;> simp [schedule, fastSchedule, hr]
+  · intro u; rw [hp.mem_iff, List.mem_cons]
+
 /-! ## non-vacuity: concrete runs that satisfy the hypotheses -/
 
 /-- two tasks and a recurring timer (the scenario of the design spike): sleeps, a pure-timeout select, three timer firings -/
@@ -501,6 +561,14 @@ def cancelRun (n : Nat) : St := reach cancelCfg 8000 [0] [{ delay := 18, recurri
 example : kdL (cancelRun 1).tasks 1 = some (.timer 0) ∧
     ((cancelRun 1).timers[0]?).map (fun m => (m.cancelled, m.final, m.fired)) = some (true, false, 0) ∧
     (cancelRun 7).now = 8040 ∧ (cancelRun 7).trace.filterMap (fireIdx 1) = [] := by decide
+
+/-- `schedule_*`: in the initial state of the demo task 1 is queued (hypothesis of `schedule_queued_noop`); in the state after one
+iteration of `blockCfg` task 0 is blocked (`schedule_wakes_blocked`), and scheduling it puts it behind / in front of task 1 -/
+def blockCfg : Cfg := { progs := [[.block, .num 0], [.num 0, .num 0]], env := { rAt := [], wAt := [], xAt := [] } }
+example : 1 ∈ (demo 0).ready ∧ (schedule (demo 0) 1 true).ready = (demo 0).ready := by decide
+example : let s := reach blockCfg 8000 [0, 1] [] [] [] [] [] 1
+    0 ∉ places s ∧ s.ready = [1] ∧ (schedule s 0 false).ready = [1, 0] ∧ (schedule s 0 true).ready = [0, 1] ∧
+    (schedule (schedule s 0 false) 0 true).ready = [1, 0] := by decide
 
 /-- `finished_never_runs`: after one iteration of the isolation scenario task 0 is dead (and task 1 still live) -/
 example : ((reach isoCfg 8000 [0, 1] [] [] [] [] [] 1).tasks.map (·.st)) = [.dead, .live] := by decide
